@@ -16,10 +16,11 @@ DATA_PALETTE = [None, 7, 'str', {'a': 1}, [], [7], ['ev'], ['ev', 1], ['connect'
 PH0 = {'_placeholder': True, 'num': 0}
 # (id kind, payload, declared attachment count, binary frames that follow)
 BAD_INDEX = ['ev', {'_placeholder': True, 'num': 5}]
+STAR_EVENT = ['*', 'a-bystander-sid', 'x']      # an event named like the wildcard; the sid is filled in at run time
 COMBOS = [(None, None, 0, 0), (None, ['ev', 1], 0, 0), ('sym', ['ev', 1], 0, 0), ('big', ['ev'], 0, 0), ('sym', [7], 0, 0),
           (None, 'str', 0, 0), (None, {'a': 1}, 0, 0), ('sym', [], 0, 0), (None, ['ev', PH0], 1, 1),
           ('sym', BAD_INDEX, 1, 1), (None, ['ev', PH0], 2, 1), (None, ['connect'], 0, 0),
-          (None, ['disconnect', 'x'], 0, 0), (None, [['ev']], 0, 0), ('sym', PH0, 1, 2)]
+          (None, ['disconnect', 'x'], 0, 0), (None, [['ev']], 0, 0), ('sym', PH0, 1, 2), (None, STAR_EVENT, 0, 0)]
 SMALL_COMBOS = [COMBOS[i] for i in (2, 4, 8, 10)]
 MALFORMED = ['x', '2', '9', '51-', '2/a', '3', '0/zz,', '4"no"', '2[', '-1', '61-/a,3']
 
@@ -66,12 +67,23 @@ def h_flow(t, part):
                 return ret
         return f
 
+    def catch_all():
+        # documented signature of a catch-all event handler: (event, sid, *data)
+        if asyncio_:
+            async def f(event, sid, *a):
+                calls.append(('catch-all', sid, (event,) + a))
+        else:
+            def f(event, sid, *a):
+                calls.append(('catch-all', sid, (event,) + a))
+        return f
+
     with notrace():
         w = worlds.SWorld(asyncio_, async_handlers=False)
         for ns in ('/', '/a'):
             w.s.on('connect', mk('connect'), namespace=ns)
             w.s.on('ev', mk('ev', 'r'), namespace=ns)
             w.s.on('disconnect', mk('disconnect'), namespace=ns)
+            w.s.on('*', catch_all(), namespace=ns)
         for e in ('e0', 'e1', 'e2'):
             w.open(e)
         off_sid = w.connect('e0', '/')
@@ -112,6 +124,8 @@ def h_flow(t, part):
             combos = SMALL_COMBOS if small else COMBOS
             idk, data, count, extra = combos[t.choice(len(combos))]
             pid = None if idk is None else BIG if idk == 'big' else t.int(0, 3)
+            if data is STAR_EVENT:
+                data = ['*', b1, 'x']
             w.recv('e0', w.P.inject(type=ptype, namespace=ns, id=pid, data=data, count=count))
             for _ in range(extra):
                 w.recv('e0', b'\x00\x01')
